@@ -99,8 +99,8 @@ def gcell (g : List (List α)) (c r : Nat) : Option α := (g[r]?).bind (·[c]?)
 def gridPerm (g : List (List α)) (f : Nat × Nat → Nat × Nat) : List (List α) :=
   (List.range g.length).map fun r => (List.range ((g.head?.map List.length).getD 0)).filterMap fun c => gcell g (f (c, r)).1 (f (c, r)).2
 
-/-- the plain model's step for the structural operations and the swap/fill primitives (`none`: this operation is
-    specified cell-wise by its own property C13–C17 rather than here) -/
+/-- the plain model's step: every operation of `HOp` on rows-of-cells (`none` only for iterator scripts that panic or lie about
+    their length: the property leaves the outcome of those open beyond "a valid array", C11) -/
 def gstep (g : List (List α)) : HOp α → Option (List (List α))
   | .insertRow i it _ =>
     let xs := it.events.filterMap id
@@ -134,6 +134,21 @@ def gstep (g : List (List α)) : HOp α → Option (List (List α))
     if c1 < C ∧ c2 < C then some (gridPerm g (swapColsG c1 c2)) else some g
   | .flipRows => some g.reverse
   | .flipCols => some (g.map List.reverse)
-  | _ => none
+  | .fromVec c r v => if specShapeOk c r ∧ c * r = v.length then some (toRows c v) else some g
+  | .swapDimensions => some (toRows g.length g.flatten)          -- same cells, rows of the old `num_rows` cells each
+  | .swap c1 r1 c2 r2 =>
+    let C := (g.head?.map List.length).getD 0
+    if c1 < C ∧ c2 < C ∧ r1 < g.length ∧ r2 < g.length then some (gridPerm g (swapCellG (c1, r1) (c2, r2))) else some g
+  | .copyFromSlice src =>
+    let C := (g.head?.map List.length).getD 0
+    if C * g.length = src.length then some (toRows C src) else some g
+  | .translate mc mr =>
+    let C := (g.head?.map List.length).getD 0
+    if mc ≤ C ∧ mr ≤ g.length then some (gridPerm g (translateG C g.length mc mr)) else some g
+  | .sortByRow le row =>
+    if row < g.length then some (gridPerm g (sortColsG (stablePerm le (g[row]?.getD [])))) else some g
+  | .sortByCol le col =>
+    let C := (g.head?.map List.length).getD 0
+    if col < C then some (gridPerm g (sortRowsG (stablePerm le (g.filterMap (·[col]?))))) else some g
 
 end Toodee
